@@ -1,14 +1,14 @@
 SPECIFICATION RSpec
 CONSTANTS
   Focus = "generic"
-  Families = {"leaf","topd","seqd","generic","typedecl","func","type"}
-  Budget = 2
+  Families = {"leaf","topd","generic"}
+  Budget = 1
   LayoutMoves = 0
   LayoutKinds = {}
   Wrap = "decls"
   CheckInjective = FALSE
-  TogoCopiesTypeParams = FALSE
-  TogoHandlesIndexList = FALSE
-  NilForNoNames = FALSE
+  TogoCopiesTypeParams = @@TP@@
+  TogoHandlesIndexList = @@IL@@
+  NilForNoNames = @@NN@@
 INVARIANTS SyncHoles WithinBudget ExportedComplete LossExplained PanicExplained RExport
 PROPERTIES ConvStutters FromGoIsIdentity
